@@ -124,8 +124,8 @@ def replay_walk(task: dict) -> dict:
     fam, cur = first["fam"], first["cur"]
     par, nc = task["par"], task["nc"]
     gt = task["geos"][(task["idx"] + task["wseed"]) % len(task["geos"])]
-    dm = task["dm"]
-    world = W.World(fam, par, nc, wseed, gt["g"], dm)
+    dm, fl = task["dm"], task["fl"]
+    world = W.World(fam, par, nc, wseed, gt["g"], dm, fl)
     pxtab = gt["px"]
     out = {"steps": 0, "mismatches": [], "abandoned": False, "resyncs": 0}
     try:
@@ -143,7 +143,7 @@ def replay_walk(task: dict) -> dict:
             if not diff:
                 continue
             out["mismatches"].append(
-                {"fam": fam, "par": par, "nc": nc, "dm": dm, "geo": world.geo, "init": init, "ev": events,
+                {"fam": fam, "par": par, "nc": nc, "dm": dm, "fl": fl, "geo": world.geo, "init": init, "ev": events,
                  "wseed": wseed,
                  "diff": diff, "walk": task["idx"], "step": i, "edge": edge})
             # resynchronise the real classes with the spec state and go on (keeps edge coverage)
@@ -177,7 +177,9 @@ def gen_tree(rng: random.Random, tier: str):
         par.append(rng.choice([nc, rng.randint(1, nc), rng.randint(max(1, nc - 2), nc)]))
     # some classes are declared with a metaclass derived from their parent's metaclass
     dm = [0] + [int(rng.random() < 0.3) for _ in range(nc - 1)] + [0] * ni
-    return par, nc, dm
+    # ... and some define __len__ returning 0 (their instances are falsy objects)
+    fl = [0] + [int(rng.random() < 0.3) for _ in range(nc - 1)] + [0] * ni
+    return par, nc, dm, fl
 
 
 VALID = {
@@ -226,7 +228,8 @@ def record(task: dict) -> dict:
     """Run a history on the real code and record it (pool worker)."""
     fam, par, nc = task["fam"], task["par"], task["nc"]
     dm = task.get("dm") or [0] * len(par)
-    world = W.World(fam, par, nc, task["wseed"], task.get("geo"), dm)
+    fl = task.get("fl") or [0] * len(par)
+    world = W.World(fam, par, nc, task["wseed"], task.get("geo"), dm, fl)
     try:
         init = task.get("init") or W.clean_init(world.n)
         if task.get("init"):
@@ -240,16 +243,16 @@ def record(task: dict) -> dict:
             ev.append(_event(op, res, used, usedpx, world.observe(render=True, gate=True)))
     finally:
         world.close()
-    return {"fam": fam, "par": par, "nc": nc, "dm": dm, "geo": world.geo, "init": init, "ev": ev}
+    return {"fam": fam, "par": par, "nc": nc, "dm": dm, "fl": fl, "geo": world.geo, "init": init, "ev": ev}
 
 
 # ------------------------------------------------------------------ verdicts
 def _trace_json(t: dict) -> dict:
-    return {k: t[k] for k in ("fam", "par", "nc", "dm", "geo", "init", "ev")}
+    return {k: t[k] for k in ("fam", "par", "nc", "dm", "fl", "geo", "init", "ev")}
 
 
 def _scenario(t: dict, wseed: int) -> dict:
-    return {"fam": t["fam"], "par": t["par"], "nc": t["nc"], "dm": t["dm"], "geo": t["geo"], "init": t["init"],
+    return {"fam": t["fam"], "par": t["par"], "nc": t["nc"], "dm": t["dm"], "fl": t["fl"], "geo": t["geo"], "init": t["init"],
             "wseed": wseed,
             "ops": [{k: e[k] for k in ("k", "set", "n", "a")} for e in t["ev"]]}
 
@@ -258,7 +261,8 @@ def _describe(t: dict, v: dict) -> str:
     at = v["at"]
     lines = [f"clause {v['verdict']!r} about {W.LONG.get(v['set'], v['set'])} at operation {at} of {len(t['ev'])}; "
              f"family {t['fam']}, tree par={t['par']} (classes 1..{t['nc']}, 1 = the real style class; "
-             f"declared with a derived metaclass: {[i + 1 for i, d in enumerate(t['dm']) if d]}), "
+             f"declared with a derived metaclass: {[i + 1 for i, d in enumerate(t['dm']) if d]}, "
+             f"defining __len__ -> 0 (falsy instances): {[i + 1 for i, d in enumerate(t['fl']) if d]}), "
              f"geometry {t['geo']}"]
     for i, e in enumerate(t["ev"][:at], 1):
         what = {"set": f"set {W.LONG[e['set']]} = {W.show(e['a'])}", "unset": f"unset {W.LONG[e['set']]}",
@@ -321,7 +325,7 @@ def _replay(rep: Report, replay: dict) -> None:
         return
     stubs.install()
     t = record({"fam": sc["fam"], "par": sc["par"], "nc": sc["nc"], "init": sc.get("init"), "geo": sc.get("geo"),
-                "dm": sc.get("dm"),
+                "dm": sc.get("dm"), "fl": sc.get("fl"),
                 "ops": sc["ops"], "wseed": sc.get("wseed", 0)})
     rep.evaluations += len(t["ev"])
     t["wseed"] = sc.get("wseed", 0)
@@ -368,9 +372,9 @@ def main(rep: Report, replay: dict | None) -> None:
             tasks = []
             for i in range(ntr):
                 fam = "iterm2" if i % 5 < 3 else "kitty"
-                par, nc, dm = gen_tree(rng, rep.tier)
+                par, nc, dm, fl = gen_tree(rng, rep.tier)
                 length = rng.randint(8, 16) if quick else rng.randint(12, 40)
-                tasks.append({"fam": fam, "par": par, "nc": nc, "dm": dm, "wseed": rng.randrange(1 << 30),
+                tasks.append({"fam": fam, "par": par, "nc": nc, "dm": dm, "fl": fl, "wseed": rng.randrange(1 << 30),
                               "ops": gen_ops(rng, fam, par, nc, length)})
             recorded = pool.map(record, tasks, chunksize=4)
             for t, task in zip(recorded, tasks):
@@ -399,7 +403,7 @@ def main(rep: Report, replay: dict | None) -> None:
                 defaults[d["fam"]] = {x["set"]: x["v"] for x in d["eff"]}
                 tree = (d["par"], d["nc"])
                 geos = d["geos"]
-                metas = d["metas"]
+                metas = d["variants"]
             if not g.edges or tree is None or set(defaults) != {"kitty", "iterm2"}:
                 raise tlc.MachineryError("c20: edge dump is empty / has no DEFAULTS line")
             walks = g.walks(max_len=60)
@@ -412,9 +416,9 @@ def main(rep: Report, replay: dict | None) -> None:
                     variants = metas
                 else:
                     variants = [metas[(i + rep.seed) % len(metas)]]
-                for dm in variants:
+                for cv in variants:
                     wtasks.append({"idx": i, "walk": w, "defaults": defaults[w[0]["from"]["fam"]], "par": tree[0],
-                                   "nc": tree[1], "dm": dm, "geos": geos, "wseed": rep.seed * 1000003 + i})
+                                   "nc": tree[1], "dm": cv["dm"], "fl": cv["fl"], "geos": geos, "wseed": rep.seed * 1000003 + i})
             wtasks.sort(key=lambda t: -len(t["walk"]))
             lap("build_walks")
             results = pool.map(replay_walk, wtasks, chunksize=2)
@@ -463,7 +467,7 @@ def main(rep: Report, replay: dict | None) -> None:
     for e in g.edges:
         rep.distinct.add(("edge", graph.key(e["from"]), graph.key(e["op"])))
     rep.extra["replay"] = {"edges": len(g.edges), "model_states": g.nodes, "walks": len(walks), "walk_runs": len(wtasks),
-                           "metaclass_variants": len(metas), "steps": steps,
+                           "class_variants": len(metas), "steps": steps,
                            "disagreeing_steps": len(mism), "resyncs": sum(r["resyncs"] for r in results),
                            "walks_abandoned": sum(1 for r in results if r["abandoned"])}
     if any(r["abandoned"] for r in results):
